@@ -8,6 +8,7 @@ import (
 	"net/http"
 	"net/http/httptest"
 	"net/url"
+	"os"
 	"sort"
 	"strings"
 	"time"
@@ -178,8 +179,18 @@ func runC19(e *core.Env) error {
 		}
 	}
 	// ---- the switches as they arrive from the configuration FILE (JSON, the way cmd/shovel reads it)
-	for _, dv := range []string{"absent", "true", "false"} {
-		for _, lv := range []string{"absent", "true", "false"} {
+	// Besides the JSON booleans: the spellings a configuration written by hand, rendered from YAML or filled
+	// from an environment variable comes in. Such a file may be REJECTED; if it is accepted the switch
+	// means what the spelling says (never "off" for a spelling of true)
+	os.Setenv("C19_SWITCH_ON", "True")
+	truthy := map[string]bool{"true": true, `"true"`: true, `"True"`: true, `"TRUE"`: true, `"1"`: true, `"t"`: true, "1": true, `"$C19_SWITCH_ON"`: true}
+	plain := map[string]bool{"absent": true, "true": true, "false": true}
+	spellings := []string{"absent", "true", "false", `"true"`, `"True"`, `"TRUE"`, `"1"`, `"t"`, "1", `"false"`, `"False"`, `"0"`, `"$C19_SWITCH_ON"`}
+	for _, dv := range spellings {
+		for _, lv := range spellings {
+			if !plain[dv] && !plain[lv] {
+				continue
+			}
 			var parts []string
 			if dv != "absent" {
 				parts = append(parts, `"disable_authn": `+dv)
@@ -193,6 +204,9 @@ func runC19(e *core.Env) error {
 			verdict := "ok"
 			if err := json.Unmarshal([]byte(doc), &conf); err != nil {
 				verdict = "configuration rejected: " + err.Error()
+				if !plain[dv] || !plain[lv] {
+					verdict = "ok" // a spelling the decoder does not take: refused, which is safe
+				}
 			} else if err := config.ValidateFix(&conf); err != nil {
 				verdict = "configuration rejected: " + err.Error()
 			} else {
@@ -206,7 +220,7 @@ func runC19(e *core.Env) error {
 					req := httptest.NewRequest("POST", "/save-source", nil)
 					req.RemoteAddr = tc.remote
 					prot.ServeHTTP(httptest.NewRecorder(), req)
-					want := dv == "true" || (tc.lb && lv != "true")
+					want := truthy[dv] || (tc.lb && !truthy[lv])
 					if ran != want && verdict == "ok" {
 						verdict = fmt.Sprintf("file says disable_authn=%s enable_loopback_authn=%s: request without a session from %s ran the protected handler=%v, want %v", dv, lv, tc.remote, ran, want)
 					}
